@@ -16,6 +16,8 @@ import (
 )
 
 type Env struct {
+	callVars map[string]string // somecall placeholders: "$k" -> real call-log key
+	allowRename bool // resolving through Exec.renames is permitted (untagged loop clauses)
 	x        *Exec
 	pkg      *types.Package
 	names    map[string]V
@@ -263,6 +265,16 @@ func (e *Env) evalIdent(name string) V {
 	if obj := types.Universe.Lookup(name); obj != nil {
 		if c, ok := obj.(*types.Const); ok {
 			return e.constValue(c)
+		}
+	}
+	// a local that a loop invariant names may have been renamed in the code: while
+	// verifyFunc tries a substitution (rename tolerance, untagged loop clauses only) the old
+	// name stands for the candidate
+	if e.allowRename && e.frame != nil && e.x.renames != nil {
+		if nn := e.x.renames[name]; nn != "" && nn != name {
+			if v, ok := e.x.lookupLocal(e.frame, nn, e.point, e.cur); ok {
+				return v
+			}
 		}
 	}
 	e.fail("unknown identifier %q", name)
@@ -1072,6 +1084,46 @@ func (e *Env) evalCall(n *CCall) V {
 			a := e.eval(n.Args[0])
 			b := e.eval(n.Args[1])
 			return V{T: boolT, S: x.errIsTerm(a.S, b.S)}
+		case "somecall":
+			// somecall("k", "callee", body): some call of callee executed before this point
+			// satisfies body, in which "$k" stands for that call's key (called/argof/retof).
+			// Independent of how many call sites the callee has and of their order.
+			if len(n.Args) != 3 {
+				e.fail("somecall needs (placeholder, callee, body)")
+			}
+			kv, ok1 := n.Args[0].(*CStr)
+			cn, ok2 := n.Args[1].(*CStr)
+			if !ok1 || !ok2 {
+				e.fail("somecall needs string literals for the placeholder and the callee")
+			}
+			if e.frame == nil {
+				panic(contractError("call-log: clause refers to the callee's own call log"))
+			}
+			var keys []string
+			for k := range e.frame.callLog {
+				if strings.HasPrefix(k, cn.Val+"#") {
+					keys = append(keys, k)
+				}
+			}
+			sort.Strings(keys)
+			var alts []string
+			for _, k := range keys {
+				ce := e.child()
+				ce.callVars = map[string]string{}
+				for a, b := range e.callVars {
+					ce.callVars[a] = b
+				}
+				ce.callVars[kv.Val] = k
+				body := ce.evalBool(n.Args[2])
+				alts = append(alts, and(e.frame.callLog[k].guard, body))
+			}
+			if len(alts) == 0 {
+				return V{T: boolT, S: "false"}
+			}
+			if len(alts) == 1 {
+				return V{T: boolT, S: alts[0]}
+			}
+			return V{T: boolT, S: "(or " + strings.Join(alts, " ") + ")"}
 		case "called", "retof", "argof", "seqof":
 			// ghost call log of the enclosing function: called("f#k") is the condition under
 			// which the k-th call of f was executed; retof / argof give its result and
@@ -1086,6 +1138,13 @@ func (e *Env) evalCall(n *CCall) V {
 				e.fail("%s needs a string key \"callee#k\"", id.Name)
 			}
 			key := ks.Val
+			if strings.HasPrefix(key, "$") {
+				real, bound := e.callVars[key[1:]]
+				if !bound {
+					e.fail("%s: placeholder %s is not bound by an enclosing somecall", id.Name, key)
+				}
+				key = real
+			}
 			if !strings.Contains(key, "#") {
 				key += "#1"
 			}
@@ -1672,6 +1731,15 @@ func (x *Exec) lookupLocal(fr *Frame, name string, point *ssa.BasicBlock, st *St
 			case *ssa.DebugRef:
 				if b == point && idx >= fr.atIdx {
 					continue
+				}
+				if fr.latchLoop != nil && b == point {
+					if bin, ok := i.X.(*ssa.BinOp); ok && (bin.Op == token.ADD || bin.Op == token.SUB) {
+						if _, isC := bin.Y.(*ssa.Const); isC {
+							if ph, ok := bin.X.(*ssa.Phi); ok && ph.Block() == fr.latchLoop.head && ph.Comment == name {
+								continue
+							}
+						}
+					}
 				}
 				if o := i.Object(); o != nil && o.Name() == name {
 					c := &cand{v: i.X, addr: i.IsAddr, block: b, idx: idx}
